@@ -241,6 +241,31 @@ def shape_models():
             h.n("Mul", ["k", "d"], "y")
             h.out("y")
             out.append(h.build())
+    # a shape value (1-D) that changes rank: reshaped to a column / row / scalar before static dims are picked out of it
+    for xs in [(2, 3, 4), (2, 3)]:
+        r = len(xs)
+        for tgt, tname in (([r, 1], "column"), ([1, r], "row"), ([-1], "flat"), ([1, 1, r], "rank3")):
+            for idx in ([1], [0]):
+                h = H(f"Gather(Reshape(Shape(x), {tname}), {idx}) x={list(xs)}")
+                h.inp("x", F, xs)
+                h.inp("k", I64, (1,))
+                h.n("Shape", ["x"], "s")
+                h.c("t", np.array(tgt, dtype=np.int64))
+                h.n("Reshape", ["s", "t"], "rs")
+                h.c("i", np.array(idx, dtype=np.int64))
+                h.n("Gather", ["rs", "i"], "d", axis=0)
+                h.n("Mul", ["d", "k"], "y")
+                h.out("y")
+                out.append(h.build())
+        h = H(f"Add(Squeeze(Shape(x)[1:2]), k) x={list(xs)}")
+        h.inp("x", F, xs)
+        h.inp("k", I64, ())
+        h.n("Shape", ["x"], "s", start=1, end=2)
+        h.c("ax", np.array([0], dtype=np.int64))
+        h.n("Squeeze", ["s", "ax"], "sq")
+        h.n("Add", ["sq", "k"], "y")
+        h.out("y")
+        out.append(h.build())
     return [(mb, spec, "shape: " + tag, ["shape"]) for mb, spec, tag in out]
 
 
